@@ -88,6 +88,8 @@ def install_axioms(e: Exec, lemma_results=None):
     from .ty import parse_type, SV
     import ast as _ast
     st = State()
+    if e.R.datatypes:
+        e.ctx.declare_datatypes(e.R.datatypes)
     for cl in e.R.axioms:
         e.ctx.axioms.append(e.eval_clause(st, cl, {}))
     if e.ctx.finite:
